@@ -111,8 +111,9 @@ theorem adopted_proposal_is_validated_or_certified (n : Node) (e : Event) (spi :
       split at hs; · cases hs
       split at hs; · cases hs
       split at hs; · cases hs
-      rename_i g1 g2 g3 g4 g5 g6 g7 g8
-      rw [if_neg g1, if_neg g2, if_neg g3, if_neg g4, if_neg g5, if_neg g6, if_neg g7, if_neg g8]
+      split at hs; · cases hs
+      rename_i g1 g2 g3 g4 g5 g6 g7 g8 g9
+      rw [if_neg g1, if_neg g2, if_neg g3, if_neg g4, if_neg g5, if_neg g6, if_neg g7, if_neg g8, if_neg g9]
       unfold adoptNewView at hs ⊢
       dsimp only at hs ⊢
       have hnone : (latestVote m.header.votes).isNone = true := by rw [hlv]; rfl
